@@ -3,6 +3,7 @@ package frontend
 import (
 	"fmt"
 	"math/rand"
+	"os"
 	"sort"
 	"strconv"
 	"strings"
@@ -137,7 +138,15 @@ func TestC42(t *testing.T) {
 			return w, tick
 		}
 		// ---- (a) the histories of the model ----
-		for _, c := range vt.TLCCases(t) {
+		tlc := vt.TLCCases(t)
+		if p := os.Getenv("VERIF_CASES_FRONTENDCACHEMINEXT"); p != "" {
+			more, err := vt.ReadNDJSON(p)
+			if err != nil {
+				t.Fatalf("reading %s: %v", p, err)
+			}
+			tlc = append(tlc, more...)
+		}
+		for _, c := range tlc {
 			tick := int64(15000)
 			if vt.Int64(c["minext"]) == 1 {
 				tick = 300000
@@ -235,7 +244,7 @@ func TestC42(t *testing.T) {
 				if s < 0 {
 					s = 0
 				}
-				for (e-s)/st > 90 {
+				for (e-s)/st > 90 || (e-s)/iv > 20 { // keep answers and the number of sub-requests small (TLC recursion depth)
 					e -= (e - s) / 2 / st * st
 				}
 				if e < s {
